@@ -108,6 +108,10 @@ func (x *X) Pick(label string, alts ...string) string {
 	return s
 }
 
+// Dry reports that this run only enumerates the frontier in the coordinator: a body that launches processes or
+// changes process-wide state must return once its choices are made.
+func (x *X) Dry() bool { return x.frontier > 0 }
+
 func (x *X) Bool(label string) bool { return x.Choose(2, label) == 1 }
 
 // Note records a datum of the decoded scenario (goes into samples and replay files).
@@ -180,8 +184,8 @@ type Spec struct {
 	Bound       any
 	Assumptions []string
 	Body        func(x *X)
-	Init        func() error        // per process, before any execution
-	Fini        func()              // per process, after the last execution
+	Init        func() error         // per process, before any execution
+	Fini        func()               // per process, after the last execution
 	Extra       func(map[string]any) // coordinator: add coverage keys after the run (model stats etc.)
 	SplitDepth  int
 	Workers     int
